@@ -43,12 +43,13 @@ func init() {
 		explain: "Decided - only the clauses of C15 that are visible in the structure of cmd/gxz: per-file processing cannot change the options shared by all " +
 			"files (works on a copy); reader.keep = opts.keep || opts.stdout at both construction sites and gates the removal; with -c neither targetName nor any " +
 			"file creation is reachable; no overwrite without -f and target != input (shared with C10); output permission bits = input mode & subset of 0666 and " +
-			"that value reaches OpenFile; the .lzma header sniffing accepts every dictionary size of the form 2^n / 2^n+2^(n-1) (finite-domain evaluation of " +
+			"that value reaches OpenFile; (CE-FORMAT-NORM) normalizeFormat, evaluated for every documented and some undocumented -F names with and without -d, leaves xz / lzma (alone is lzma) or - decompressing only - auto, and refuses the rest; the .lzma header sniffing accepts every dictionary size of the form 2^n / 2^n+2^(n-1) (finite-domain evaluation of " +
 			"validDictCap); every file's failure is reflected in the exit status (EF-IO over main's loop). NOT decided: round trip of contents, presets, " +
 			"xz-utils interoperability of the streams (C02/C03/C07 cover the library side), option parsing in internal/gflag ('--', bundling; a file named like a " +
 			"boolean value after a flag is swallowed by the parser - not visible to these rules), .txz/.tlz naming beyond target != input.",
 		run: func(c *Ctx, r *Report) {
 			ruleGxzFlags(c, r, "")
+			ruleFormatNormCE(c, r, "")
 			// gxz is the library behind a command line: its round trips and its acceptance of xz-utils
 			// files stand on the codec and container rules (subset that pins the shared model)
 			ruleSpecConstants(c, r, "lib:")
